@@ -526,9 +526,23 @@ fn parse_function_attributes(
     ast_attributes: &[ast::Attribute],
     context: &mut Context,
 ) -> TyperResult<Vec<ir::FunctionAttribute>> {
-    let mut ir_attributes = Vec::new();
+    let mut ir_attributes = Vec::<ir::FunctionAttribute>::new();
     for ast_attribute in ast_attributes {
-        ir_attributes.push(parse_function_attribute(ast_attribute, context)?);
+        let ir_attribute = parse_function_attribute(ast_attribute, context)?;
+
+        // Each kind of attribute has a single value for the function so can only be given once
+        if ir_attributes
+            .iter()
+            .any(|prev| std::mem::discriminant(prev) == std::mem::discriminant(&ir_attribute))
+        {
+            let name = ast_attribute.name.last().unwrap();
+            return Err(TyperError::FunctionAttributeDuplicate(
+                name.node.clone(),
+                name.location,
+            ));
+        }
+
+        ir_attributes.push(ir_attribute);
     }
     Ok(ir_attributes)
 }
